@@ -13,9 +13,15 @@ Untouched == [pos \in Positions |-> "none"]
 Single == {[Untouched EXCEPT ![pos] = k] : pos \in Positions, k \in SigBreak \cup {"strip", "dropds", "swapds", "dropproof",
               "foreignproof", "clonetag", "labels", "notyet", "inject", "roguekey", "roguesig", "fakedname", "foreigndeny", "wildrep", "wildforeign", "barenx", "bareempty"}}
 SingleOK == {t \in Single : \A pos \in Positions : t[pos] = "none" \/ t[pos] \in KindsAt(pos)}
-MCTampers == {Untouched} \cup SingleOK
+\* the fault "lame" comes alone (combined with a tampering elsewhere the code's order of discovery - refusal first or
+\* bogus first - would decide whether a fallback may be asked; the statement does not rank them)
+\* so does "ttlup" (authenticity untouched: nothing to combine)
+MCTampers == {Untouched} \cup SingleOK \cup {[Untouched EXCEPT !["answer"] = k] : k \in {"lame", "ttlup"}}
 \* pairs: one tampering at each of two different positions
 MCTamperPairs == UNION { UNION { { [Untouched EXCEPT ![p1] = k1, ![p2] = k2] : k1 \in KindsAt(p1), k2 \in KindsAt(p2) }
                                   : p2 \in Positions \ {p1} } : p1 \in Positions }
 MCFlags == [do : BOOLEAN, ad : BOOLEAN, cd : BOOLEAN]
+\* small case space for the negative twins (Neg_*.cfg)
+NegZoneKinds == {"signed", "insecure"}
+NegQKinds == {"a", "nx"}
 =============================================================================
